@@ -219,41 +219,131 @@ def check_zero_aware_selector(crate, out, suffix="quantity::Quantity::comparison
 
 
 def check_selector(crate, out):
+    """Unit::smaller_unit(a, b) is a symmetric function: the parameter with the strictly smaller base-unit factor wins,
+    and when the factors are EQUAL (kph vs km/h, Gy vs Sv, mHz vs mBq: different units of the same size) the choice must
+    not depend on which parameter is `self` — it has to be made by an order on the units themselves.  A non-strict
+    comparison that returns a parameter directly (`if fa <= fb { self } else { other }`) gives the left operand on a
+    tie, so `a == b` / `a - b` convert the other way round than `b == a` / `b - a`."""
     fn = crate.find_fn("smaller_unit")
     f = crate.file_of(fn)
     ops = two_operands(fn)
     a, b = ops
     operands = {a["id"]: a["name"], b["id"]: b["name"]}
     inits = let_inits(fn)
-    body = peel(fn["body"])
-    tail = body.get("tail") if body.get("k") == "Block" else body
-    tail = peel(tail) if tail is not None else {}
-    ok = False
-    why = "the body is not a single comparison selecting between the two parameters"
-    if tail.get("k") == "If" and tail.get("else") is not None:
-        c = peel(tail["cond"])
-        if c.get("k") == "Binary" and c.get("op") in ("<=", "<", ">=", ">"):
-            lp = operand_prov(c["l"], inits, operands)
-            rp = operand_prov(c["r"], inits, operands)
-            th = local_of(tail["then"] if tail["then"].get("k") != "Block" else (tail["then"].get("tail") or {}))
-            el_blk = tail["else"]
-            el = local_of(el_blk if el_blk.get("k") != "Block" else (el_blk.get("tail") or {}))
-            if len(lp) == 1 and len(rp) == 1 and lp != rp and {th, el} == set(operands):
-                # `x <= y ? x : y`  (or mirrored): the branch taken when l (op) r holds must return the side that is smaller
-                l_id = next(iter(lp))
-                r_id = next(iter(rp))
-                smaller_when_true = l_id if c["op"] in ("<=", "<") else r_id
-                if th == smaller_when_true:
-                    ok = True
-                    why = "returns the parameter whose base-unit factor is smaller (one comparison over both factors; ties keep the left operand, equal size)"
-                else:
-                    why = "the comparison selects the LARGER unit"
-            # both sides must be computed by the same callee
-            lcalls = {callee(x) for x in walk(inits.get(local_of(c["l"]) or -1, c["l"])) if x.get("k") == "MethodCall"}
-    if ok:
-        out.ok("smaller_unit:selector", f, fn["line"], why)
+
+    def prov(e):
+        return operand_prov(e, inits, operands)
+
+    def ret_param(e):
+        e = peel(e)
+        if e.get("k") == "Block" and e.get("tail") is not None and not e.get("stmts"):
+            e = peel(e["tail"])
+        lid = local_of(e)
+        return lid if lid in operands else None
+
+    strict = {}  # param id -> True when a strictly-smaller test returns it
+    tie_symmetric = False
+    tie_positional = None
+    n_cmp = 0
+    # nodes inside the tie arm (Equal / None / _) of a three-way comparison of the factors: comparisons there are the
+    # tie-break on the units themselves, not comparisons of the factors
+    in_tie = set()
+    for n in walk(fn["body"]):
+        if n.get("k") == "Match":
+            sc = peel(n["scrut"])
+            if sc.get("k") == "MethodCall" and sc["name"] in ("partial_cmp", "cmp", "total_cmp"):
+                for arm in n["arms"]:
+                    variants = {p.get("variant") for p in walk(arm["pat"]) if p.get("variant")}
+                    if not (variants & {"Less", "Greater"}):
+                        for x in walk(arm["body"]):
+                            in_tie.add(id(x))
+    for n in walk(fn["body"]):
+        k = n.get("k")
+        if k == "If" and id(n) not in in_tie:
+            c = peel(n["cond"])
+            if c.get("k") == "Binary" and c.get("op") in ("<", "<=", ">", ">="):
+                lp, rp = prov(c["l"]), prov(c["r"])
+                if len(lp) == 1 and len(rp) == 1 and lp != rp:
+                    n_cmp += 1
+                    l_id, r_id = next(iter(lp)), next(iter(rp))
+                    small = l_id if c["op"] in ("<", "<=") else r_id
+                    th = ret_param(n["then"])
+                    if th is not None and th == small:
+                        if c["op"] in ("<", ">"):
+                            strict[th] = True
+                        else:
+                            # non-strict: on a tie this branch is taken and returns a fixed parameter
+                            tie_positional = (th, crate.loc(fn, n)[1])
+                            strict[th] = True
+                        el = n.get("else")
+                        if el is not None and ret_param(el) is not None and ret_param(el) != th and c["op"] in ("<=", ">="):
+                            strict[ret_param(el)] = True
+                    elif th is not None:
+                        out.violation("smaller_unit:selector", f, fn["line"], "the comparison selects the LARGER unit")
+                        return
+        if k == "Match":
+            sc = peel(n["scrut"])
+            if sc.get("k") == "MethodCall" and sc["name"] in ("partial_cmp", "cmp", "total_cmp"):
+                lp, rp = prov(sc["recv"]), prov(sc["args"][0]) if sc["args"] else set()
+                if len(lp) == 1 and len(rp) == 1 and lp != rp:
+                    n_cmp += 1
+                    l_id, r_id = next(iter(lp)), next(iter(rp))
+                    for arm in n["arms"]:
+                        variants = {p.get("variant") for p in walk(arm["pat"]) if p.get("variant")}
+                        rp_ = ret_param(arm["body"])
+                        if variants == {"Some", "Less"} or variants == {"Less"}:
+                            if rp_ == l_id:
+                                strict[l_id] = True
+                            elif rp_ is not None:
+                                out.violation("smaller_unit:selector", f, fn["line"], "the comparison selects the LARGER unit")
+                                return
+                        elif variants == {"Some", "Greater"} or variants == {"Greater"}:
+                            if rp_ == r_id:
+                                strict[r_id] = True
+                            elif rp_ is not None:
+                                out.violation("smaller_unit:selector", f, fn["line"], "the comparison selects the LARGER unit")
+                                return
+                        else:
+                            # tie (Equal / None / _): must be decided by a comparison of the two units themselves
+                            if rp_ is not None:
+                                tie_positional = (rp_, crate.loc(fn, arm["pat"])[1])
+                            else:
+                                for x in walk(arm["body"]):
+                                    if x.get("k") == "MethodCall" and x["name"] in ("le", "lt", "ge", "gt", "cmp", "partial_cmp") and x["args"]:
+                                        p1, p2 = prov(x["recv"]), prov(x["args"][0])
+                                        if len(p1) == 1 and len(p2) == 1 and p1 != p2:
+                                            tie_symmetric = True
+                                    if x.get("k") == "Binary" and x.get("op") in ("<", "<=", ">", ">="):
+                                        p1, p2 = prov(x["l"]), prov(x["r"])
+                                        if len(p1) == 1 and len(p2) == 1 and p1 != p2:
+                                            tie_symmetric = True
+    # any other early decision (`if <something about both factors> { return self; }`) that is not a strict order
+    # between the two factors picks a parameter by position on (near-)ties
+    for n in walk(fn["body"]):
+        if n.get("k") != "If" or id(n) in in_tie:
+            continue
+        c = peel(n["cond"])
+        strict_cmp = c.get("k") == "Binary" and c.get("op") in ("<", ">") and len(prov(c["l"])) == 1 and len(prov(c["r"])) == 1 and prov(c["l"]) != prov(c["r"])
+        nonstrict_handled = c.get("k") == "Binary" and c.get("op") in ("<=", ">=") and len(prov(c["l"])) == 1 and len(prov(c["r"])) == 1
+        if strict_cmp or nonstrict_handled:
+            continue
+        if len(prov(n["cond"])) < 2:
+            continue
+        rets = [x for x in walk(n["then"]) if x.get("k") == "Ret" and x.get("e") is not None and local_of(x["e"]) in operands]
+        tail_p = ret_param(n["then"])
+        if rets or tail_p is not None:
+            who = local_of(rets[0]["e"]) if rets else tail_p
+            tie_positional = (who, crate.loc(fn, n)[1])
+    if n_cmp == 0 or set(strict) != set(operands):
+        out.violation("smaller_unit:selector", f, fn["line"], "the body does not select between the two parameters by comparing their base-unit factors")
+        return
+    out.ok("smaller_unit:selector", f, fn["line"], "returns the parameter whose base-unit factor is strictly smaller (one comparison over both factors)")
+    if tie_positional is not None:
+        out.violation("smaller_unit:tie", f, tie_positional[1], "when both units have the SAME base-unit factor (different units of equal size: kph vs km/h, Gy vs Sv, mHz vs mBq) smaller_unit returns `%s`, i.e. whichever operand is on that side: `a == b`, `a < b`, `a - b` then convert the other way round than `b == a`, `b > a`, `b - a`, and the rounding of the conversion makes the results differ" % operands[tie_positional[0]])
+    elif tie_symmetric:
+        out.ok("smaller_unit:tie", f, fn["line"], "a tie of the factors is broken by an order on the units themselves, independent of operand position")
     else:
-        out.violation("smaller_unit:selector", f, fn["line"], why)
+        out.violation("smaller_unit:tie", f, fn["line"], "no position-independent tie-break for units of equal size")
 
 
 def zero_shortcuts(crate, fn, out, label):
@@ -313,6 +403,7 @@ def rule_sym_cmp(crate):
     ]
     FRAMES.clear()
     ZERO_AWARE.clear()
+    check_selector(crate, out)
     check_zero_aware_selector(crate, out)
     for fn, label in fns:
         check_binary(crate, fn, out, label)
@@ -384,6 +475,14 @@ def rule_sym_cmp(crate):
             rets = [x for x in walk(e["then"]) if x.get("k") == "Ret"]
             if c.get("k") == "Binary" and c.get("op") == "||" and len(who) == 2 and rets:
                 nan_first = True
+    # the comparison of the CONVERTED values can still be undefined (the conversion multiplies/divides by factors that
+    # overflow: inf / inf = NaN), so its result must not be unwrapped
+    unwrapped = [x for x in walk(fn["body"]) if x.get("k") == "MethodCall" and x["name"] in ("expect", "unwrap") and peel(x["recv"]).get("k") == "MethodCall" and peel(x["recv"])["name"] == "partial_cmp"]
+    if unwrapped:
+        uf, ul = crate.loc(fn, unwrapped[0])
+        out.violation("Quantity::partial_cmp_preserve_nan:nan-after-conversion", uf, ul, "the ordering of the converted values is unwrapped: a NaN produced by the conversion itself (huge factors: `1 pc^20 < 1 ly^20` computes inf / inf) panics with `unexpectedly got a None partial_cmp`")
+    else:
+        out.ok("Quantity::partial_cmp_preserve_nan:nan-after-conversion", f, fn["line"], "an undefined comparison after the conversion is mapped to NanOperand, not unwrapped")
     if nan_first:
         out.ok("Quantity::partial_cmp_preserve_nan:nan-first", f, fn["line"], "NaN of either operand is detected before any conversion")
     else:
